@@ -212,9 +212,9 @@ func genNested(t *rapid.T, m *lsw.GenModel) []lsw.Op {
 
 var c01Phases = map[string][]string{
 	"sync": {"verify", "sync_page_map", "sync_prepare_ltx", "write_ltx_from_wal", "write_ltx_from_db", "rename_ltx", "sync_complete", "checkpoint_if_needed",
-		"checkpoint_copy_before", "checkpoint_exec", "checkpoint_exec", "checkpoint_bump_seq", "checkpoint_bump_seq", "checkpoint_verify_restart",
+		"checkpoint_copy_before", "checkpoint_passive_barrier", "checkpoint_exec", "checkpoint_exec", "checkpoint_bump_seq", "checkpoint_bump_seq", "checkpoint_verify_restart",
 		"checkpoint_snapshot_boundary_lock", "checkpoint_snapshot_boundary"},
-	"lsckpt": {"checkpoint_lock", "checkpoint_copy_before", "sync_page_map", "rename_ltx", "checkpoint_exec", "checkpoint_exec", "checkpoint_exec",
+	"lsckpt": {"checkpoint_lock", "checkpoint_copy_before", "sync_page_map", "rename_ltx", "checkpoint_passive_barrier", "checkpoint_passive_barrier", "checkpoint_exec", "checkpoint_exec", "checkpoint_exec",
 		"checkpoint_bump_seq", "checkpoint_bump_seq", "checkpoint_bump_seq", "checkpoint_verify_restart", "checkpoint_snapshot_boundary_lock", "checkpoint_snapshot_boundary"},
 	"snapshot": {"snapshot_encode"},
 	"close":    {"verify", "sync_page_map", "rename_ltx", "sync_complete", "close_release", "checkpoint_exec", "checkpoint_bump_seq"},
@@ -237,7 +237,7 @@ func genInterleave(t *rapid.T, m *lsw.GenModel, k string) []lsw.Op {
 }
 
 var (
-	c01EarlyCkptPhases = []string{"checkpoint_lock", "checkpoint_read_wal_header", "checkpoint_copy_before", "sync_complete", "checkpoint_exec", "checkpoint_exec", "checkpoint_exec"}
+	c01EarlyCkptPhases = []string{"checkpoint_lock", "checkpoint_read_wal_header", "checkpoint_copy_before", "sync_complete", "checkpoint_passive_barrier", "checkpoint_passive_barrier", "checkpoint_exec", "checkpoint_exec", "checkpoint_exec"}
 	c01LateCkptPhases  = []string{"checkpoint_bump_seq", "checkpoint_bump_seq", "checkpoint_verify_restart", "checkpoint_snapshot_boundary_lock", "checkpoint_snapshot_boundary", "sync_page_map", "rename_ltx"}
 )
 
